@@ -378,6 +378,15 @@ impl Env {
                 std::fs::write(&snap, &buf).expect("write snapshot");
                 snap
             }
+            "fhash" => {
+                // FNV-1a over the whole file: "the file's bytes are unchanged"
+                let data = std::fs::read(&self.cfg.path).expect("read db file");
+                let mut h: u64 = 0xcbf29ce484222325;
+                for b in &data {
+                    h = (h ^ (*b as u64)).wrapping_mul(0x100000001b3);
+                }
+                format!("{:016x}:{}", h, data.len())
+            }
             other => panic!("unknown op {}", other),
         }
     }
@@ -389,6 +398,7 @@ pub fn main(args: &[String]) {
     let dbpath = args.get(2).cloned().unwrap_or_else(|| format!("/dev/shm/jh-{}.db", std::process::id()));
     let mut out = BufWriter::new(out);
     let mut env = Env::new(&dbpath);
+    let watchdog_secs: u32 = std::env::var("JH_WATCHDOG").ok().and_then(|v| v.parse().ok()).unwrap_or(120);
     for line in std::io::BufReader::new(inp).lines() {
         let line = line.unwrap();
         let line = line.trim();
@@ -397,6 +407,9 @@ pub fn main(args: &[String]) {
         }
         let f: Vec<&str> = line.split(' ').collect();
         if f[0] == "hist" {
+            // watchdog: a history that hangs (self-deadlock) kills the process; the caller
+            // attributes the death to this history
+            unsafe { libc::alarm(watchdog_secs) };
             env.reset();
             unsafe { SNAP_BASE = env.snap; }
             env = Env::new(&dbpath);
